@@ -130,6 +130,7 @@ def _external_table():
         'functools.reduce': functools.reduce,
         'unicodedata.bidirectional': __import__('unicodedata').bidirectional, 'unicodedata.category': __import__('unicodedata').category,
         'warnings.warn': (lambda *a, **k: None),
+        'datetime.datetime': __import__('datetime').datetime, 'datetime.date': __import__('datetime').date,
     }
 
 
@@ -287,7 +288,7 @@ class Interp(MiniEval):
             return e.value
         sh = self.shared
         sh['steps'] += 1
-        if sh['steps'] > self.MAX_STEPS:
+        if sh['steps'] > sh.get('max_steps', self.MAX_STEPS):
             raise Unsupported('step budget exceeded')
         if t in _MINI_ONLY:
             return miniev.MiniEval.ev(self, e)       # node kinds this class adds nothing to
@@ -583,6 +584,8 @@ class Interp(MiniEval):
                 m, fn = self.src.func(mq)
                 return PkgFunc(m, fn, mq.split('.')[1], bound=base)
             raise Raised('AttributeError')
+        if type(base).__module__ == 'datetime' and not attr.startswith('_'):
+            return getattr(base, attr)          # datetime / date values are plain data
         if isinstance(base, type) and base in (dict, str, list, tuple, int, set, frozenset, bytes, float) and not attr.startswith('_'):
             return getattr(base, attr)          # dict.fromkeys, str.join, int.from_bytes ...
         if isinstance(base, (str, bytes, dict, list, tuple, set, frozenset, int, float)) and not attr.startswith('__') \
@@ -735,6 +738,8 @@ class Interp(MiniEval):
                 base = self.ev(e.func.value)
                 if isinstance(base, (str, dict, list, tuple, set, frozenset)) and e.func.attr in miniev.SAFE_METHODS:
                     concrete = not any(isinstance(a_, (Obj, Sym)) for a_ in list(args) + list(kwargs.values()))
+                    if not hasattr(base, e.func.attr):
+                        raise Raised('AttributeError')       # e.g. .lower() on a list-valued attribute
                     try:
                         return getattr(base, e.func.attr)(*args, **kwargs)
                     except (ValueError, KeyError, IndexError) as x:
@@ -905,7 +910,7 @@ class Interp(MiniEval):
             try:
                 return callee(*args, **kwargs)
             except (ValueError, OverflowError, ZeroDivisionError) as x:
-                if concrete and getattr(callee, '__module__', None) == 'builtins':
+                if concrete and getattr(callee, '__module__', None) in ('builtins', 'datetime', 'unicodedata', 'math'):
                     raise Raised(type(x).__name__)   # chr(0x110000), int('x', 16), divmod(1, 0) on concrete operands
                 raise
         raise Unsupported(f'call of {text or callee!r}')
